@@ -302,7 +302,7 @@ func serve(conn net.Conn, c caseSpec, lg *connLog) {
 		if err != nil {
 			var ne net.Error
 			if errors.As(err, &ne) && ne.Timeout() {
-				lg.addEnv("EOF")
+				lg.addEnv("IDLE") // an EOF for the client, caused by the harness giving up on a silent peer (a hang, or a very slow machine)
 				idleExit = true
 			}
 			return
